@@ -86,7 +86,33 @@ def do_parse(kind, text):
 
 
 def _dump(node):
-    return ast.dump(node, annotate_fields=True, include_attributes=False)
+    """Structural dump that ignores absent-vs-empty optional fields (type_params=[] / kind=None / type_comment=None):
+    hand-built nodes omit them, parsed ones carry them."""
+    if isinstance(node, ast.UnaryOp) and isinstance(node.op, ast.USub) and isinstance(node.operand, ast.Constant) \
+            and isinstance(node.operand.value, (int, float)) and not isinstance(node.operand.value, bool):
+        node = ast.Constant(value=-node.operand.value)     # `-5` parses as USub(5); a hand-built Constant(-5) is the same literal
+    if isinstance(node, ast.AST):
+        out = [type(node).__name__]
+        for f in node._fields:
+            v = getattr(node, f, None)
+            if v is None or v == []:
+                continue
+            out.append((f, _dump(v)))
+        return tuple(out)
+    if isinstance(node, list):
+        return tuple(_dump(x) for x in node)
+    return (type(node).__name__, repr(node))
+
+
+def _cleandoc(tree):
+    """Formatting may re-indent docstrings: compare them modulo inspect.cleandoc (layout, not content)."""
+    import inspect
+
+    for n in ast.walk(tree):
+        if isinstance(n, (ast.FunctionDef, ast.ClassDef, ast.Module)) and n.body and isinstance(n.body[0], ast.Expr) \
+                and isinstance(n.body[0].value, ast.Constant) and isinstance(n.body[0].value.value, str):
+            n.body[0].value.value = "\n".join(x.rstrip() for x in inspect.cleandoc(n.body[0].value.value).splitlines()).strip()
+    return tree
 
 
 def observe_code(table, kind, o, text, node, hint, files=True):
@@ -114,7 +140,7 @@ def observe_code(table, kind, o, text, node, hint, files=True):
                 emit.file(deepcopy(node), fn, mode="wt", skip_black=skip)
                 with open(fn) as f:
                     got = ast.parse(f.read()).body[0]
-                py[key] = _dump(got) == _dump(parsed)
+                py[key] = _dump(_cleandoc(got)) == _dump(_cleandoc(deepcopy(parsed)))
             except Exception as e:
                 py[key] = False
                 py[key + "_exc"] = repr(e)
